@@ -418,10 +418,37 @@ func main() {
 	}
 	var realViolations []*Obligation
 	nExcused := 0
+	// A recorded finding names its obligations exactly. When a refactoring moved the code (another call ordinal, a
+	// helper frame) the listed name is no longer generated; the finding then also covers a failing obligation with
+	// the same name modulo ordinals and helper frames — but only as many of them as listed names went missing, so a
+	// second, different violation of the same kind in the same function is still reported.
+	generated := map[string]bool{}
+	for _, o := range mine {
+		generated[o.Name] = true
+	}
+	normBudget := map[*KnownFinding]map[string]int{}
+	for _, k := range e.known {
+		if !k.Unprovable {
+			continue
+		}
+		for _, nm := range append([]string{k.Obligation}, k.Also...) {
+			if !generated[nm] {
+				if normBudget[k] == nil {
+					normBudget[k] = map[string]int{}
+				}
+				normBudget[k][normName(nm)]++
+			}
+		}
+	}
 	for _, o := range violations {
 		excused := false
 		for _, k := range e.known {
-			if k.covers(o.Name) && k.Unprovable {
+			covered := k.covers(o.Name)
+			if !covered && k.Unprovable && normBudget[k][normName(o.Name)] > 0 {
+				covered = true
+				normBudget[k][normName(o.Name)]--
+			}
+			if covered && k.Unprovable {
 				if w := witness(k); w == "present" || w == "skipped" {
 					excused = true
 					knownReported[k] = true
@@ -510,8 +537,8 @@ func main() {
 				continue
 			}
 			t0b := time.Now()
-			status, detail := runBounded(*repo, f, hdr["package"])
-			note := map[string]interface{}{"check": filepath.Base(f), "function": hdr["function"], "bound": hdr["bound"], "level": "bounded (not counted as proved)", "result": status, "detail": trunc(detail, 600), "seconds": time.Since(t0b).Seconds()}
+			status, detail := runBounded(*repo, f, hdr["package"], *tier)
+			note := map[string]interface{}{"check": filepath.Base(f), "function": hdr["function"], "bound": hdr["bound"], "bound_thorough": hdr["bound-thorough"], "tier": *tier, "level": "bounded (not counted as proved)", "result": status, "detail": trunc(detail, 600), "seconds": time.Since(t0b).Seconds()}
 			boundedNotes = append(boundedNotes, note)
 			if status == "fail" {
 				name := "bounded." + strings.TrimSuffix(filepath.Base(f), "_test.go")
@@ -953,7 +980,7 @@ func boundedHeader(path string) map[string]string {
 }
 
 // runBounded injects a bounded stand-in test into the real package (go test -overlay) and runs it.
-func runBounded(repo, src, pkg string) (status, detail string) {
+func runBounded(repo, src, pkg, tier string) (status, detail string) {
 	pkgDir := filepath.Join(repo, pkg)
 	work, err := os.MkdirTemp("", "vbnd")
 	if err != nil {
@@ -964,9 +991,9 @@ func runBounded(repo, src, pkg string) (status, detail string) {
 	data, _ := json.Marshal(map[string]interface{}{"Replace": map[string]string{target: src}})
 	ovPath := filepath.Join(work, "overlay.json")
 	os.WriteFile(ovPath, data, 0o644)
-	cmd := exec.Command("go", "test", "-overlay", ovPath, "-vet=off", "-count=1", "-timeout", "120s", "-run", "TestVerifBounded", "-v", ".")
+	cmd := exec.Command("go", "test", "-overlay", ovPath, "-vet=off", "-count=1", "-timeout", "600s", "-run", "TestVerifBounded", "-v", ".")
 	cmd.Dir = pkgDir
-	cmd.Env = append(os.Environ(), "GOFLAGS=-mod=mod", "GOPROXY=off", "GOSUMDB=off", "GOTOOLCHAIN=local")
+	cmd.Env = append(os.Environ(), "GOFLAGS=-mod=mod", "GOPROXY=off", "GOSUMDB=off", "GOTOOLCHAIN=local", "VERIF_BOUNDED_TIER="+tier)
 	out, _ := cmd.CombinedOutput()
 	s := string(out)
 	var fails []string
